@@ -28,13 +28,13 @@ CHECKS = {
    design="§4 C10"),
  "C12": dict(
    level="exploration",
-   text="Deterministic simulation of module-delivery histories. (A) A wrapper backend on the public Backend trait treats the generate_module call stream as a transport that replays, duplicates and reorders captured modules (also across several compilations in one run, with other TAGS/EXTENSIBILITY defaults); every delivery to the long-lived real backend must equal the same call on a fresh backend. (B) Sub-multisets and orders of generated module sets (2..5 modules, differing defaults, acyclic and cyclic import graphs, imported types/values in components, constraints and DEFAULTs) handed to one Compiler through every builder path, as literals/one literal/files (the sets include mutual recursion entered from other modules, classes with named field types, objects of imported classes, parameterized templates with instances and dummy references spelled like foreign types): every module's block must be token-identical to its block in the stand-alone compilation (module + import cone, pristine process). (C) Every IMPORTS clause must become use super::<module>::{...} of exactly the imported symbols (plus documented associated types), * exactly under default_wildcard_imports, and module-qualified references must go through super::<module>::. (D, scenario tag-keywords) Defaults-do-not-leak relation between two compilations of one set: writing the keyword EXPLICIT after every keyword-less first-level tag of the modules that say EXPLICIT TAGS must leave every module block token-identical - in particular the blocks of modules with another default that inherit those members with COMPONENTS OF or instantiate a template that carries them. Module identifiers come in families (one extends another by an arc).",
+   text="Deterministic simulation of module-delivery histories. (A) A wrapper backend on the public Backend trait treats the generate_module call stream as a transport that replays, duplicates and reorders captured modules (also across several compilations in one run, with other TAGS/EXTENSIBILITY defaults); every delivery to the long-lived real backend must equal the same call on a fresh backend. (B) Sub-multisets and orders of generated module sets (2..5 modules, differing defaults, acyclic and cyclic import graphs, imported types/values in components, constraints and DEFAULTs) handed to one Compiler through every builder path, as literals/one literal/files (the sets include mutual recursion entered from other modules, classes with named field types, objects of imported classes, parameterized templates with instances and dummy references spelled like foreign types): every module's block must be token-identical to its block in the stand-alone compilation (module + import cone, pristine process). (C) Every IMPORTS clause must become use super::<module>::{...} of exactly the imported symbols (plus documented associated types), * exactly under default_wildcard_imports, and module-qualified references must go through super::<module>::. (D, scenario tag-keywords) Defaults-do-not-leak relation between two compilations of one set: writing the keyword EXPLICIT after every keyword-less first-level tag of the modules that say EXPLICIT TAGS must leave every module block token-identical - in particular the blocks of modules with another default that inherit those members with COMPONENTS OF or instantiate a template that carries them. (E) Every module-qualified path the compiler writes into an item (super::<m>::<T>, from a qualified reference, a member copied with COMPONENTS OF or a template instance) must name something the block of <m> defines; inherited base types carry a member of a type their own module imports. Module identifiers come in families (one extends another by an arc).",
    note="Sampling, not proof. Known findings F1 (same bare name in two modules) and F5 (same enumeral/named number in two modules) are confined to their own scenarios and classified by renaming the shared spelling apart. Name mangling is learned by leave-one-out, not re-implemented.",
    technique="deterministic simulation: message faults (drop, duplicate, reorder, replay) on the Backend delivery seam and on the Compiler builder; differential against fresh-backend and stand-alone references",
    design="§4 C12"),
  "C17": dict(
    level="exploration",
-   text="SLICE of the property: stored-byte corruption of valid generated sources (1..3 modules, LF/CRLF, comments). One byte replaced by a byte that starts no ASN.1 token, a 512-byte sector zero-filled, or truncation inside an assignment, at strict positions known from the generator's token map; small sources swept exhaustively over every strict byte, larger ones sampled, every header/assignment/END hit at its first and last byte; given as a literal and as a file whose bytes the simulated disk corrupts in flight. Oracle on every syntax error: offset within input and on a char boundary; line = 1 + line breaks before offset (also for the context start); position not before the first token of the malformed unit and not after the first corrupted byte; Display line = contextualize header line = contextualize flagged line = structured line, a row is flagged whenever the reported line is part of the excerpt and not blank, and the flagged row shows that line's text; path reported iff the corrupted source was given by path, also when well-formed file and literal sources precede it, when the file's name holds punctuation, non-ASCII characters or bytes that are not valid UTF-8 (the path is then reported as to_string_lossy renders it), and when the file system reports the file's size as 0 although all of it can be read (a benign stat fault: the error must still be found where the damage is). One case in twenty-five runs after a HISTORY of up to 140 other compilations on the same thread (nesting of 3..100 levels, sources cut at end of input, comments and strings that never end). One literal case in twenty is preceded IN THE SAME SOURCE by a hand-written module of notation the generator does not write (ENCODING-CONTROL, classes with syntax, macros, boundary literals ...). Two-byte corruptions: a comma between two components blanked plus a later damaged byte of the same assignment - the bound is then the identifier after the lost comma (known finding lenient-comma-then-damaged-default when the later damage sits inside a DEFAULT value).",
+   text="SLICE of the property: stored-byte corruption of valid generated sources (1..3 modules, LF/CRLF, comments - half of the block comments with vertical tabs, form feeds, tabs and no-break spaces, also directly behind the line break). One byte replaced by a byte that starts no ASN.1 token, a 512-byte sector zero-filled, or truncation inside an assignment, at strict positions known from the generator's token map; small sources swept exhaustively over every strict byte, larger ones sampled, every header/assignment/END hit at its first and last byte; given as a literal and as a file whose bytes the simulated disk corrupts in flight. Oracle on every syntax error: offset within input and on a char boundary; line = 1 + line breaks before offset (also for the context start); position not before the first token of the malformed unit and not after the first corrupted byte; Display line = contextualize header line = contextualize flagged line = structured line, a row is flagged whenever the reported line is part of the excerpt and not blank, and the flagged row shows that line's text; path reported iff the corrupted source was given by path, also when well-formed file and literal sources precede it, when the file's name holds punctuation, non-ASCII characters or bytes that are not valid UTF-8 (the path is then reported as to_string_lossy renders it), and when the file system reports the file's size as 0 although all of it can be read (a benign stat fault: the error must still be found where the damage is). One case in twenty-five runs after a HISTORY of up to 140 other compilations on the same thread (nesting of 3..100 levels, sources cut at end of input, comments and strings that never end). One literal case in twenty is preceded IN THE SAME SOURCE by a hand-written module of notation the generator does not write (ENCODING-CONTROL, classes with syntax, macros, boundary literals ...). Two-byte corruptions: a comma between two components blanked plus a later damaged byte of the same assignment - the bound is then the identifier after the lost comma (known finding lenient-comma-then-damaged-default when the later damage sits inside a DEFAULT value).",
    note="Not claimed: deletion/replacement by another valid token (a typo model; needs a generator-driven differential). Ok results and non-syntax errors are not judged. The token map only has to be right for text the generator itself produces.",
    technique="deterministic simulation with fault injection: stored-byte corruption at token-map positions, delivered as literals and through the simulated disk seam; position/consistency oracles over the structured report and both renderings",
    design="§4 C17"),
@@ -46,7 +46,7 @@ CHECKS = {
    design="§4 C08"),
  "C11": dict(
    level="exploration",
-   text="Deterministic simulation of 1..16 caller threads under a seeded baton scheduler (random, PCT and run-to-completion strategies; yield points at every intercepted libc call and at the verif-hooks points inside lexing, linking, validation and per-definition generation), each thread with a history of compilations over generated module sets, their siblings (same names, different bodies/defaults) and corpus files, in random arrangements (assignment permutation, module order, regrouping into sources), with seeded HashSet keys (getrandom seam) and benign read faults; sources handed over twice; multi-file sets of real-world modules with disjoint names in permuted source order; every module permutation of small sets; reused scratch file paths with new content. A watchdog passes the baton on when its holder blocks on a lock another sim thread holds. Scenario fine-grain adds the ALLOCATOR seam: every k-th heap allocation (k in 1..64) of the code under test is a yield point, 2..3 threads, rare switches - interleavings far below hook-point granularity, replayable because the k-th allocation of a deterministic computation is a deterministic place. Scenario formatter makes the rustfmt stand-in reachable in modes that are a pure function of its input (healthy, exit 3, rejecting some sources with exit 1), so results must not depend on what the same thread formatted before. IMPORTS may name the exporter by another module reference together with its object identifier. One operation in five is a compile() into a file path that all operations of the thread reuse (the file's content is the result compared); in a third of the multi-threaded runs two threads deliver into ONE directory, one with the TypeScript and one with the rasn backend (two files, each written by one thread only). Scenario xmod-name re-observes known finding F1. Oracle: every result is byte-identical (text and warning multiset) to a canonical-order single-threaded compilation in a pristine process of its own.",
+   text="Deterministic simulation of 1..16 caller threads under a seeded baton scheduler (random, PCT and run-to-completion strategies; yield points at every intercepted libc call and at the verif-hooks points inside lexing, linking, validation and per-definition generation), each thread with a history of compilations over generated module sets, their siblings (same names, different bodies/defaults) and corpus files, in random arrangements (assignment permutation, module order, regrouping into sources), with seeded HashSet keys (getrandom seam) and benign read faults; sources handed over twice; multi-file sets of real-world modules with disjoint names in permuted source order; every module permutation of small sets; reused scratch file paths with new content. A watchdog passes the baton on when its holder blocks on a lock another sim thread holds. Scenario fine-grain adds the ALLOCATOR seam: every k-th heap allocation (k in 1..64) of the code under test is a yield point, 2..3 threads, rare switches - interleavings far below hook-point granularity, replayable because the k-th allocation of a deterministic computation is a deterministic place. Scenario formatter makes the rustfmt stand-in reachable in modes that are a pure function of its input (healthy, exit 3, rejecting some sources with exit 1), so results must not depend on what the same thread formatted before. IMPORTS may name the exporter by another module reference together with its object identifier. One operation in five is a compile() into a file path that all operations of the thread reuse (the file's content is the result compared); in a third of the multi-threaded runs two threads deliver into ONE directory, one with the TypeScript and one with the rasn backend (two files, each written by one thread only). One run in fifty adds two hand-written modules with permitted alphabets on the multi-octet string types (BMPString inside, UniversalString beyond the basic plane) to its inputs. Scenario xmod-name re-observes known finding F1. Oracle: every result is byte-identical (text and warning multiset) to a canonical-order single-threaded compilation in a pristine process of its own.",
    note="Sampling, not proof. Interleaving granularity is hook points and system calls, and heap allocations in the fine-grain scenario. Multi-file corpus sets are combined only when an over-approximate token scan finds their names disjoint (finding F1).",
    technique="deterministic simulation: seeded thread schedules (baton scheduler over real OS threads; yield points at system calls, compiler hook points and heap allocations), process histories, permuted delivery, seeded hash keys, formatter subprocess seam; differential against a pristine reference process",
    design="§4 C11"),
